@@ -60,6 +60,9 @@ class LookupPreset:
         if self.max_names < MIN_NAME_LOOKUP_SIZE:
             msg = "name lookup size must be at least 8"
             raise JellyConformanceError(msg)
+        if max(self.max_names, self.max_prefixes, self.max_datatypes) > MAX_LOOKUP_SIZE:
+            msg = f"lookup size cannot be larger than {MAX_LOOKUP_SIZE}"
+            raise JellyConformanceError(msg)
 
     @classmethod
     def small(cls) -> Self:
